@@ -39,7 +39,7 @@ REAL_VS_STUB = {
     "stub": ["the test-phase faults (vocabulary classes in simlib.py: EvilEq, RaisesEq, BadCopy)", "formatter states", "the user"],
 }
 CATS = ["create", "fix", "trim", "update"]
-TROUBLE = ["unorderable", "evil_align", "raiseseq_root", "nested_deleted", "nested_replaced", "nested_kept", "badcopy", "mixed_ops", "nested_dict", "evil_in", "nested_in_dictvalue"]
+TROUBLE = ["evil_dict_retry", "evil_dict_retry", "unorderable", "evil_align", "raiseseq_root", "nested_deleted", "nested_replaced", "nested_kept", "badcopy", "mixed_ops", "nested_dict", "evil_in", "nested_in_dictvalue"]
 
 
 def add_trouble(rng, f, kind, n):
@@ -81,6 +81,12 @@ def add_trouble(rng, f, kind, n):
         ev["vals"] = [["dict", [[["str", "k"], ["list", [["int", 1], ["int", 3]]]]]]]
     elif kind == "badcopy":
         ev["vals"] = [["badcopy", 1]]
+    elif kind == "evil_dict_retry":
+        # the first keys produce changes, a later value raises in its comparison, and the same snapshot is evaluated again
+        site.update(place=rng.choice(["func", "lam"]), arg=rng.choice(['{"a": 1, "b": 5}', '{"a": 1, "b": 5, "c": [1]}']))
+        ev["vals"] = [["dict", [[["str", "a"], ["int", 2]], [["str", "b"], ["evileq", 1]]]]]
+        second = rng.choice([["dict", [[["str", "a"], ["int", 2]], [["str", "b"], ["evileq", 1]]]], ["dict", [[["str", "a"], ["int", 2]], [["str", "b"], ["int", 5]]]]])
+        extra = [{"t": "cmp", "eid": eid + "r", "site": sid, "vals": [second], "style": "rec"}]
     elif kind == "mixed_ops":
         site.update(place="func", arg=rng.choice([None, "5"]))
         ev["vals"] = [["int", 5]]
